@@ -477,6 +477,11 @@ impl Worker {
             return;
         }
 
+        // Where this transaction starts: after a rollover that is the new segment's offset, not
+        // the old segment's (truncating to the stale offset would be a no-op and leave the
+        // records of a failed transaction in the new segment).
+        let write_offset = writer_set.writer.write_offset();
+
         let bytes_since_sync = writer_set.bytes_since_sync;
         let res = writer_set.handle_write(WriteOperation {
             partition_key,
